@@ -51,11 +51,18 @@ Abnormal ==
 \* (including MAX_DATA, and ACKs that share a packet with it) is blocked and no timer is armed.
 \* Recognised at the end of an incomplete run by bytes in flight without any ack-eliciting packet
 \* in flight on a padding side.
+\* KNOWN FINDING (C02): a server may fill its congestion window with 1-RTT packets (0.5-RTT data,
+\* NEW_TOKEN / NEW_CONNECTION_ID, much larger with pad_to_mtu) that the client cannot acknowledge
+\* before the handshake completes.  If Handshake CRYPTO data is then lost, its retransmission is
+\* congestion blocked, the PTO ignores the Data space while handshaking, the Handshake space has
+\* nothing in flight any more: neither side has a timer and the handshake never completes.
+\* Recognised at the end of an incomplete run by exactly that state on a handshaking side.
 End ==
   /\ Is("End")
-  /\ bad' = bad \cup Flag(e.done \/ e.stuckpad, "WorkloadNotCompleted")
+  /\ bad' = bad \cup Flag(e.done \/ e.stuckpad \/ e.hsstarved, "WorkloadNotCompleted")
                 \cup Flag(e.lost = 0, "ConnectionLostDuringWorkload")
-  /\ deviations' = IF ~e.done /\ e.stuckpad THEN {"PaddedAckOnlyPacketsFillWindow"} ELSE {}
+  /\ deviations' = IF ~e.done /\ e.hsstarved THEN {"HandshakeRetransmitStarvedBy1RttData"}
+                    ELSE IF ~e.done /\ e.stuckpad THEN {"PaddedAckOnlyPacketsFillWindow"} ELSE {}
   /\ ended' = TRUE /\ l' = l + 1 /\ UNCHANGED <<budget, cur>>
 
 TNext == (Reset \/ Step \/ Abnormal \/ End)
